@@ -541,7 +541,9 @@ func c02R5(a *A, r *Roles, ar *Arms) {
 			foldsElsewhere = true
 		}
 	})
-	if !a.need(len(lookups) > 0 || foldsElsewhere, rule, "classifier map lookup") {
+	if len(lookups) == 0 {
+		// no table: the keyword is compared against string constants (a switch or an if-chain)
+		c02R5Compare(a, ar, gsc, foldsElsewhere)
 		return
 	}
 	var table *ssa.Global
@@ -611,6 +613,84 @@ func c02R5(a *A, r *Roles, ar *Arms) {
 		a.check(have["Query/"+nm], rule, "dispatched@Statement"+nm, "-", "has a case in the parser", "Statement"+nm+" has no case in the parser's switch and silently falls to default")
 	}
 	_ = token.NoPos
+}
+
+// c02R5Compare: the classifier without a table - every comparison of the keyword with a constant uses a case-folded
+// operand and a constant in that case; every Statement* kind is returned for some keyword and has a case in the parser.
+func c02R5Compare(a *A, ar *Arms, gsc *ssa.Function, foldsElsewhere bool) {
+	const rule = "C02-R5"
+	w := a.W
+	n := 0
+	instrs(gsc, func(in ssa.Instruction) {
+		bo, ok := in.(*ssa.BinOp)
+		if !ok || bo.Op != token.EQL || !isStringType(bo.X.Type()) {
+			return
+		}
+		var k string
+		var other ssa.Value
+		if s, isS := constString(bo.Y); isS {
+			k, other = s, bo.X
+		} else if s, isS := constString(bo.X); isS {
+			k, other = s, bo.Y
+		} else {
+			return
+		}
+		if k == "" {
+			return
+		}
+		n++
+		lower := derivesFromCall(other, "strings.ToLower", 0)
+		upper := derivesFromCall(other, "strings.ToUpper", 0)
+		a.check(lower || upper || foldsElsewhere, rule, fmt.Sprintf("fold@GetStatementCategory#%d", n), w.posOf(bo),
+			"compared keyword is case-folded", "the statement keyword is compared without case folding: 'begin'/'Commit'/'ROLLBACK' in another letter case are not recognised as boundaries")
+		want := strings.ToLower(k)
+		if upper {
+			want = strings.ToUpper(k)
+		}
+		a.check(k == want && !strings.ContainsAny(k, " \t"), rule, "key@compare["+strings.ToLower(k)+"]", w.posOf(bo),
+			"keyword constant is in the folded case", fmt.Sprintf("keyword %q is not in the case the comparison folds to: this statement kind is never recognised", k))
+	})
+	if !a.need(n >= 3, rule, "classifier map lookup or keyword comparisons") {
+		return
+	}
+	// values the classifier can return
+	vals := map[int64]bool{}
+	var collect func(v ssa.Value, depth int)
+	collect = func(v ssa.Value, depth int) {
+		if depth > 6 {
+			return
+		}
+		if k, ok := constInt(v); ok {
+			vals[k] = true
+			return
+		}
+		if phi, ok := v.(*ssa.Phi); ok {
+			for _, e := range phi.Edges {
+				collect(e, depth+1)
+			}
+		}
+	}
+	for _, ret := range returnsOf(gsc) {
+		if len(ret.Results) > 0 {
+			collect(ret.Results[0], 0)
+		}
+	}
+	var names []string
+	for v, nm := range ar.stmt {
+		if nm == "Unknown" {
+			continue
+		}
+		names = append(names, nm)
+		a.check(vals[v], rule, "classified@Statement"+nm, "-", "has a keyword", "no keyword maps to Statement"+nm+": such statements fall to 'unknown' and are dropped")
+	}
+	sort.Strings(names)
+	have := map[string]bool{}
+	for _, p := range ar.Preds {
+		have[p.Name] = true
+	}
+	for _, nm := range names {
+		a.check(have["Query/"+nm], rule, "dispatched@Statement"+nm, "-", "has a case in the parser", "Statement"+nm+" has no case in the parser's switch and silently falls to default")
+	}
 }
 
 // derivesFromCall: v is (through wrappers/phis/slicing) the result of a call to
